@@ -76,6 +76,8 @@ def generate(rng, tier, shard, nshards):
                         break
                 p, q = a_ / np.linalg.norm(a_) * float(rng.choice([-1, 1])), b_ / np.linalg.norm(b_) * float(rng.choice([-1, 1]))
         t = np.sort(np.r_[0.0, rng.uniform(0, 1, int(rng.integers(1, 8))), 1.0])
+        if i % 3 == 0:      # weights next to (not at) the ends: 1e-12..1e-3 from 0 and from 1
+            t = np.sort(np.r_[t, gens.logu(rng, 1e-12, 1e-3), 1.0 - gens.logu(rng, 1e-12, 1e-3), 1.0 - gens.logu(rng, 1e-7, 1e-4)])
         yield Case("pair", "pair:" + reg, p=p, q=q, t=t)
     # NaN runs: enumerate (N, start, length) and deal them round-robin to shards
     combos = [(N, a, L) for N in range(3, 11) for a in range(1, N - 1) for L in range(1, N - 1 - a + 1)]
